@@ -319,6 +319,8 @@ var checks = map[string]*check{
 		Assumptions: []string{"real-process part: no schedule control; schedule-dependent leaks are the subject of the explorer part (scripted plugin process, virtual sockets whose files are marker files), under every schedule with <= 1 (thorough 2) deviations", "goroutines are sampled once, 7 s after Kill (after the 5 s broker timers)"},
 		Parts: []part{
 			{Name: "leaks", Kind: "enum", Bin: "e3.test", Test: "TestC18"},
+			// a hand-written gRPC plugin whose stdio stream ends with an error status (Internal, Unknown, ResourceExhausted)
+			{Name: "hand-written-plugin", Kind: "explore", Scen: "raw_grpc_peer", Inst: inst("stdio-status", "stdio-status"), Depths: depths([]int{0, 1}, []int{0, 1, 2}), Budget: budget(2*time.Minute, 10*time.Minute)},
 			// schedule-dependent leaks: sessions used from one or two goroutines (racing first Client() calls,
 			// concurrent dispenses, one brokered connection in either direction) then a graceful Kill, under
 			// every schedule with <= d deviations; goroutines, listeners, socket files and the runner directory
